@@ -337,7 +337,9 @@ def _share_prefix(branches):
             st_ = dict(st_)
             rt = gfi.DISTS[st_["callee"]["name"]][1]
             # the first statement of every branch shares the full address when it is float-valued
-            leaf = "x" if (si == 0 and rt == "f") else f"{'pqr'[si % 3]}{bi}" + ("" if rt == "f" else f"_{rt}")
+            # float-valued first statements share the full address from the second branch on (the first
+            # branch does not trace it): an address present in some branches only
+            leaf = "x" if (si == 0 and rt == "f" and bi >= 1) else f"{'pqr'[si % 3]}{bi}" + ("" if rt == "f" else f"_{rt}")
             st_["addr"] = ["sp", leaf]
             stmts.append(st_)
         b["stmts"] = stmts
